@@ -154,6 +154,10 @@ type WalletState struct {
 	// Uncertain: an operation on this wallet was in flight when the process
 	// crashed, so the harness does not know whether it took effect.
 	Uncertain bool
+	// InternalN: lower bound on the number of internal-branch (change)
+	// addresses the wallet holds (a restore with an internal index hint, or a
+	// keystore exported from such a wallet, derives that many)
+	InternalN uint32
 }
 
 type IssuedAddr struct {
